@@ -1,50 +1,101 @@
 (* C23 — invalid grammars are always reported as textX errors.
 
-   `front c o fuel g` is the outcome of metamodel_from_str on a grammar text whose parse by the
-   grammar-language parser is `g` (a parse tree, or a syntax failure), for the regex / escape /
-   language-registry oracles `o` and Python recursion budget `fuel`.  `src_cfg` (Gen/SrcFront.v) is
-   regenerated from textx/lang.py and textx/metamodel.py on every run: which exceptions each
-   try/except catches and what it raises, the accepted rule parameters, the presence of the guards. *)
+   `front c o user fuel g` is the outcome of metamodel_from_str(text, classes=user) when the grammar-language
+   parser did `g` on the text (returned a parse tree, or raised an exception of a given type), for the
+   regex / escape / language-registry oracles `o` (each answers with the TYPE of the exception raised, if
+   any) and Python recursion budget `fuel`.  `src_cfg` (Gen/SrcFront.v) is regenerated from textx/lang.py
+   and textx/metamodel.py on every run: the except clauses of every try statement involved (the class names
+   they catch, whether their body can raise by itself, what they raise), the accepted rule parameters, the
+   presence of the guards. *)
 From TxV Require Import Core.Base Gen.SrcFront Model.FrontDefs Model.Front Proofs.FrontProofs.
+From TxV Require Model.Kinds.
 
-(* Every crash source of the modelled front-end is guarded in the current source. *)
+(* Every crash source of the modelled front-end is guarded in the current source; in particular the handler of
+   visit_re_match catches Exception (not just re.error), the handlers of visit_str_match catch IndexError and
+   UnicodeDecodeError, language_from_str catches NoMatch, _resolve_cls and __contains__ catch KeyError. *)
 Theorem C23_source_guards : cfg_safe src_cfg = true.
 Proof. exact (eq_refl true). Qed.
 Print Assumptions C23_source_guards.
 
-(* The property: for every parse result, every oracle and every recursion budget larger than the
-   number of rules, the outcome is Ok or a TextXError — never another exception.  The documented
-   exception (an import statement in a grammar given as a string) is the hypothesis. *)
-Theorem C23_total : forall (o : oracles) (fuel : nat) (g : ginput) (k : crash),
-  has_import g = false -> fuel > nrules g -> front src_cfg o fuel g <> Crash k.
-Proof. exact (fun o fuel g k => front_never_crashes src_cfg o fuel g k C23_source_guards). Qed.
+(* The property.  Hypotheses: the world outside textX raises only what the handlers are written for
+   (oracle_wf: re.compile raises Exception subclasses, the escape decoding IndexError/UnicodeDecodeError, the
+   registry TextXErrors); the parser raises nothing but NoMatch (parse_wf); no import statement (the documented
+   exception); the recursion budget exceeds the number of rules. *)
+Theorem C23_total : forall (o : oracles) (user : list (list N)) (fuel : nat) (g : ginput) (k : list N),
+  oracle_wf o -> parse_wf g -> has_import g = false -> fuel > nrules g -> front src_cfg o user fuel g <> Crash k.
+Proof. exact (fun o user fuel g k => front_never_crashes src_cfg o user fuel g k C23_source_guards). Qed.
 Print Assumptions C23_total.
 
-(* ... and it holds for any source whose extracted facts show all guards, whatever classes it raises. *)
-Theorem C23_total_any_guarded_source : forall (c : cfg) (o : oracles) (fuel : nat) (g : ginput) (k : crash),
-  cfg_safe c = true -> has_import g = false -> fuel > nrules g -> front c o fuel g <> Crash k.
-Proof. exact (fun c o fuel g k => front_never_crashes c o fuel g k). Qed.
+Theorem C23_total_any_guarded_source : forall (c : cfg) (o : oracles) (user : list (list N)) (fuel : nat) (g : ginput) (k : list N),
+  cfg_safe c = true -> oracle_wf o -> parse_wf g -> has_import g = false -> fuel > nrules g ->
+  front c o user fuel g <> Crash k.
+Proof. exact (fun c o user fuel g k => front_never_crashes c o user fuel g k). Qed.
 Print Assumptions C23_total_any_guarded_source.
 
+(* For EVERY recursion budget: the only non-TextX exception is RecursionError, and only when the budget does not
+   exceed the number of rules (the alias-resolution part of known finding interp-recursion-limit, made exact). *)
+Theorem C23_only_recursion_beyond_budget : forall (o : oracles) (user : list (list N)) (fuel : nat) (g : ginput) (k : list N),
+  oracle_wf o -> parse_wf g -> has_import g = false ->
+  front src_cfg o user fuel g = Crash k -> k = n_RecursionError /\ fuel <= nrules g.
+Proof. exact (fun o user fuel g k => front_crash_only_recursion src_cfg o user fuel g k C23_source_guards). Qed.
+Print Assumptions C23_only_recursion_beyond_budget.
+
 (* The budget is irrelevant beyond the number of rules: the repaired resolution terminates. *)
-Theorem C23_resolution_terminates : forall (o : oracles) (g : ginput) (f1 f2 : nat),
-  f1 > nrules g -> f2 > nrules g -> front src_cfg o f1 g = front src_cfg o f2 g.
-Proof. exact (fun o g f1 f2 => front_fuel_irrelevant src_cfg o g f1 f2 C23_source_guards). Qed.
+Theorem C23_resolution_terminates : forall (o : oracles) (user : list (list N)) (g : ginput) (f1 f2 : nat),
+  f1 > nrules g -> f2 > nrules g -> front src_cfg o user f1 g = front src_cfg o user f2 g.
+Proof. exact (fun o user g f1 f2 => front_fuel_irrelevant src_cfg o user g f1 f2 C23_source_guards). Qed.
 Print Assumptions C23_resolution_terminates.
 
-(* ---- witnesses *)
+(* _determine_rule_types: the multi-pass rule-kind fixpoint (C03's model Model/Kinds.v, run on the translation
+   `to_kinds` of the resolved grammar) ends for every grammar, so this phase raises nothing. *)
+Theorem C23_rule_kind_fixpoint_terminates : forall (c : cfg) (t : tree), rule_kinds_fixpoint c t = Ok.
+Proof. exact rule_kinds_fixpoint_ok. Qed.
+Print Assumptions C23_rule_kind_fixpoint_terminates.
+
+(* the translation is meaningful:  A: B | C;  B: x=INT;  C: 'c';  ->  A abstract, B common, C match *)
+Example C23_rule_kinds_example :
+  exists s, Kinds.determine_types (to_kinds src_cfg t_kinds) = Some s /\
+            map (Kinds.types s) [0; 1; 2] = [Kinds.KAbstract; Kinds.KCommon; Kinds.KMatch].
+Proof. eexists. split; [vm_compute; reflexivity | reflexivity]. Qed.
+Print Assumptions C23_rule_kinds_example.
+
+(* The order in which _resolve_rule_refs / _resolve_cls_refs reach the references (not transcribed: a depth-first
+   walk over mutable nodes) cannot change the CLASS of the outcome (Ok / TextXError / other exception): any list
+   with the same elements gives the same class as the model's textual order. *)
+Theorem C23_rule_reference_order_irrelevant : forall (o : oracles) (fuel : nat) (t : tree) (refs : list (list N)),
+  oracle_wf o -> fuel > length (t_rules t) -> (forall n, In n refs <-> In n (all_refs (t_rules t))) ->
+  class_of (resolve_in_order src_cfg o fuel t refs) = class_of (resolve_rule_refs src_cfg o fuel t).
+Proof. exact (fun o fuel t refs => resolve_order_irrelevant src_cfg o fuel t refs C23_source_guards). Qed.
+Print Assumptions C23_rule_reference_order_irrelevant.
+
+Theorem C23_class_reference_order_irrelevant : forall (o : oracles) (t : tree) (types : list (list N)),
+  oracle_wf o -> (forall n, In n types <-> In n (map snd (flat_map attrs_rule (effective (t_rules t))))) ->
+  class_of (resolve_cls_in_order src_cfg o t types) = class_of (resolve_cls_refs src_cfg o t).
+Proof. exact (fun o t types => resolve_cls_order_irrelevant src_cfg o t types C23_source_guards). Qed.
+Print Assumptions C23_class_reference_order_irrelevant.
+
+(* ... which is false for the pinned code: `A: C B; B: B;` — undefined rule first: TextXError, alias cycle first:
+   RecursionError (the real traversal reports the undefined rule). *)
+Theorem C23_order_irrelevant_refuted_pinned : exists (t : tree) (refs : list (list N)),
+  (forall n, In n refs <-> In n (all_refs (t_rules t))) /\
+  class_of (resolve_in_order pinned_cfg all_ok 9 t refs) <> class_of (resolve_rule_refs pinned_cfg all_ok 9 t).
+Proof.
+  exists t_undef_cycle, [nB; nC]. split.
+  - intro n. vm_compute. tauto.
+  - vm_compute. discriminate.
+Qed.
+Print Assumptions C23_order_irrelevant_refuted_pinned.
+
 (* The alias-cycle repair is conservative: with the guard removed from the current source facts, rule-reference
    resolution either exhausts the recursion budget or gives exactly the outcome of the current source. *)
 Theorem C23_alias_repair_conservative : forall (o : oracles) (fuel : nat) (t : tree),
-  resolve_rule_refs (with_alias_guard src_cfg None) o fuel t = Crash KRecursion
+  resolve_rule_refs (with_alias_guard src_cfg None) o fuel t = Crash n_RecursionError
   \/ resolve_rule_refs (with_alias_guard src_cfg None) o fuel t = resolve_rule_refs src_cfg o fuel t.
 Proof. exact (fun o fuel t => alias_repair_conservative src_cfg _ o fuel t eq_refl). Qed.
 Print Assumptions C23_alias_repair_conservative.
 
-(* ... and a reference that the unguarded code resolves with some budget is resolved identically, for every larger
-   budget, by the guarded code: the guard rejects only what never terminated. *)
 Theorem C23_guard_rejects_only_divergence : forall (o : oracles) (t : tree) (fuel : nat) (n : list N),
-  follow pinned_cfg o t fuel [] n <> Crash KRecursion ->
+  follow pinned_cfg o t fuel [] n <> Crash n_RecursionError ->
   forall fuel', fuel' >= fuel ->
     follow pinned_cfg o t fuel' [] n = follow (with_alias_guard pinned_cfg (Some CSemantic)) o t fuel' [] n.
 Proof. exact (fun o t => unguarded_never_recovers pinned_cfg o t CSemantic eq_refl). Qed.
@@ -52,69 +103,92 @@ Print Assumptions C23_guard_rejects_only_divergence.
 
 (* ---- witnesses: the grammars and oracles are defined in Proofs/FrontProofs.v (section Witnesses) *)
 
-(* Non-vacuity: the same inputs are TextX errors with the current source, for any admissible budget. *)
+(* Non-vacuity: the hypotheses are satisfiable and these inputs are TextX errors with the current source. *)
 Example C23_nonvacuous :
-  front src_cfg bad_regex 5 g_regex = TxErr CSyntax WRegex /\
-  front src_cfg all_ok 5 g_ws = TxErr CSyntax WWsParam /\
-  front src_cfg all_ok 5 g_ugroup = Ok /\
-  front src_cfg all_ok 5 g_self = TxErr CSemantic WRuleRef /\
-  front src_cfg all_ok 5 g_cycle = TxErr CSemantic WRuleRef /\
-  front src_cfg bad_escape 5 g_escape = TxErr CSyntax WEscape /\
-  front src_cfg textx_lang 5 g_textx = TxErr CSemantic WClsRef /\
-  front src_cfg all_ok 5 GSyntaxError = TxErr CSyntax WParse /\
-  front src_cfg lang_found 5 g_qualified_alias = Ok /\
-  front src_cfg all_ok 5 g_unknown_ns = TxErr CSemantic WRuleRef /\
-  front src_cfg all_ok 5 g_boolmany = TxErr CSemantic WBoolMany.
-Proof. vm_compute. repeat split; reflexivity. Qed.
+  oracle_wf overflow_regex /\
+  front src_cfg bad_regex [] 5 g_regex = TxErr CSyntax WRegex /\
+  front src_cfg overflow_regex [] 5 g_regex = TxErr CSyntax WRegex /\
+  front src_cfg all_ok [] 5 g_ws = TxErr CSyntax WWsParam /\
+  front src_cfg all_ok [] 5 g_ugroup = Ok /\
+  front src_cfg all_ok [] 5 g_self = TxErr CSemantic WRuleRef /\
+  front src_cfg all_ok [] 5 g_cycle = TxErr CSemantic WRuleRef /\
+  front src_cfg bad_escape [] 5 g_escape = TxErr CSyntax WEscape /\
+  front src_cfg textx_lang [] 5 g_textx = TxErr CSemantic WClsRef /\
+  front src_cfg all_ok [] 5 (GParseRaises exc_nomatch) = TxErr CSyntax WParse /\
+  front src_cfg lang_found [] 5 g_qualified_alias = Ok /\
+  front src_cfg lang_unregistered [] 5 g_qualified_alias = TxErr CRegistration WRegistration /\
+  front src_cfg all_ok [] 5 g_unknown_ns = TxErr CSemantic WRuleRef /\
+  front src_cfg all_ok [] 5 g_boolmany = TxErr CSemantic WBoolMany /\
+  front src_cfg all_ok [nB] 5 g_plain = TxErr CSemantic WUserUnused /\
+  front src_cfg all_ok [nA] 5 g_plain = TxErr CSemantic WUserRedef.
+Proof. split; [exact overflow_regex_wf | vm_compute; repeat split; reflexivity]. Qed.
 Print Assumptions C23_nonvacuous.
 
-(* The hypothesis of C23_total is needed: the documented exception. *)
-Theorem C23_import_is_the_documented_exception : front src_cfg all_ok 5 g_import = Crash KAssertion.
+(* The hypotheses of C23_total are needed. *)
+Theorem C23_import_is_the_documented_exception : front src_cfg all_ok [] 5 g_import = Crash n_AssertionError.
 Proof. vm_compute. reflexivity. Qed.
 Print Assumptions C23_import_is_the_documented_exception.
 
+(* parse_wf: a parser that raises RecursionError (80 nested brackets) is not caught by `except NoMatch`
+   (known finding interp-recursion-limit, replayed: corpus/C23/deep_nesting.tx) *)
+Theorem C23_refuted_parser_recursion : front src_cfg all_ok [] 5 (GParseRaises exc_recursion) = Crash n_RecursionError.
+Proof. vm_compute. reflexivity. Qed.
+Print Assumptions C23_refuted_parser_recursion.
+
+(* the budget: a chain of alias rules longer than the budget *)
+Theorem C23_refuted_budget_exhausted : front src_cfg all_ok [] 1 g_self_chain = Crash n_RecursionError.
+Proof. vm_compute. reflexivity. Qed.
+Print Assumptions C23_refuted_budget_exhausted.
+
+(* The handler of visit_re_match must catch Exception: with `except re.error` (seeded change C23b) a regex whose
+   compilation raises OverflowError (`/a{99999999999}/`) leaves metamodel_from_str as OverflowError. *)
+Theorem C23_refuted_regex_handler_narrowed : exists o g, oracle_wf o /\ has_import g = false /\
+  front (with_re_clauses src_cfg [{| cl_types := [n_error]; cl_action := ARaise None CSyntax |}]) o [] 5 g = Crash n_OverflowError.
+Proof. exists overflow_regex, g_regex. split; [exact overflow_regex_wf | vm_compute; split; reflexivity]. Qed.
+Print Assumptions C23_refuted_regex_handler_narrowed.
+
 (* The code as pinned (pinned_cfg = the facts extracted from the source before the repairs) violates the
    property; one witness per crash source.  Each was replayed on the pinned implementation. *)
-Theorem C23_refuted_pinned_regex : exists o g, has_import g = false /\ front pinned_cfg o 5 g = Crash KType.
+Theorem C23_refuted_pinned_regex : exists o g, has_import g = false /\ front pinned_cfg o [] 5 g = Crash n_TypeError.
 Proof. exists bad_regex, g_regex. vm_compute. split; reflexivity. Qed.
 Print Assumptions C23_refuted_pinned_regex.
 
-Theorem C23_refuted_pinned_ws_param : exists o g, has_import g = false /\ front pinned_cfg o 5 g = Crash KType.
+Theorem C23_refuted_pinned_ws_param : exists o g, has_import g = false /\ front pinned_cfg o [] 5 g = Crash n_TypeError.
 Proof. exists all_ok, g_ws. vm_compute. split; reflexivity. Qed.
 Print Assumptions C23_refuted_pinned_ws_param.
 
-Theorem C23_refuted_pinned_unordered_group : exists o g, has_import g = false /\ front pinned_cfg o 5 g = Crash KAttribute.
+Theorem C23_refuted_pinned_unordered_group : exists o g, has_import g = false /\ front pinned_cfg o [] 5 g = Crash n_AttributeError.
 Proof. exists all_ok, g_ugroup. vm_compute. split; reflexivity. Qed.
 Print Assumptions C23_refuted_pinned_unordered_group.
 
 (* for EVERY recursion budget *)
-Theorem C23_refuted_pinned_alias_cycle : exists o g, has_import g = false /\ forall fuel, front pinned_cfg o fuel g = Crash KRecursion.
+Theorem C23_refuted_pinned_alias_cycle : exists o g, has_import g = false /\ forall fuel, front pinned_cfg o [] fuel g = Crash n_RecursionError.
 Proof. exists all_ok, g_self. exact (conj eq_refl pinned_self_alias_crashes). Qed.
 Print Assumptions C23_refuted_pinned_alias_cycle.
 
-Theorem C23_refuted_pinned_two_rule_cycle : exists o g, has_import g = false /\ front pinned_cfg o 1000 g = Crash KRecursion.
+Theorem C23_refuted_pinned_two_rule_cycle : exists o g, has_import g = false /\ front pinned_cfg o [] 1000 g = Crash n_RecursionError.
 Proof. exists all_ok, g_cycle. vm_compute. split; reflexivity. Qed.
 Print Assumptions C23_refuted_pinned_two_rule_cycle.
 
-Theorem C23_refuted_pinned_escape : exists o g, has_import g = false /\ front pinned_cfg o 5 g = Crash KUnicode.
+Theorem C23_refuted_pinned_escape : exists o g, has_import g = false /\ front pinned_cfg o [] 5 g = Crash n_UnicodeDecodeError.
 Proof. exists bad_escape, g_escape. vm_compute. split; reflexivity. Qed.
 Print Assumptions C23_refuted_pinned_escape.
 
-Theorem C23_refuted_pinned_textx_reference : exists o g, has_import g = false /\ front pinned_cfg o 5 g = Crash KType.
+Theorem C23_refuted_pinned_textx_reference : exists o g, has_import g = false /\ front pinned_cfg o [] 5 g = Crash n_TypeError.
 Proof. exists textx_lang, g_textx. vm_compute. split; reflexivity. Qed.
 Print Assumptions C23_refuted_pinned_textx_reference.
 
 (* Rule references may be fully qualified names.  Two further crash sources, guarded in the current source: *)
 (* (a) an alias of a rule of a referenced language, when _determine_rule_type looks the target class up by its
-       unqualified rule_name instead of taking rule._tx_class (the code before fix 97c0ef9): KeyError *)
+       unqualified rule_name instead of taking rule._tx_class (the code before fix 017cc2e): KeyError *)
 Theorem C23_refuted_qualified_alias_lookup : exists o g, has_import g = false /\
-  front (with_ruletype_by_class src_cfg false) o 5 g = Crash KKey.
+  front (with_ruletype_by_class src_cfg false) o [] 5 g = Crash n_KeyError.
 Proof. exists lang_found, g_qualified_alias. vm_compute. split; reflexivity. Qed.
 Print Assumptions C23_refuted_qualified_alias_lookup.
 
-(* (b) a qualified rule reference with an unknown namespace, when `rule_name in metamodel` does not catch the
-       KeyError of the namespace lookup *)
+(* (b) a qualified rule reference with an unknown namespace, when `rule_name in metamodel` has no except clause
+       for the KeyError of the namespace lookup (seeded change C23) *)
 Theorem C23_refuted_contains_without_keyerror_handler : exists o g, has_import g = false /\
-  front (with_contains src_cfg false) o 5 g = Crash KKey.
+  front (with_contains src_cfg []) o [] 5 g = Crash n_KeyError.
 Proof. exists all_ok, g_unknown_ns. vm_compute. split; reflexivity. Qed.
 Print Assumptions C23_refuted_contains_without_keyerror_handler.
